@@ -91,6 +91,60 @@ pub fn run(ctx: &Ctx) -> i32 {
             vio(&format!("C03 {} after copy/move_p of a deep chain", code), || detail.clone(), || J::obj([("part", J::s("deep-chain")), ("suite", J::s("copy_move"))]));
         }
     }
+    // ---- arguments that are not valid UTF-8 ("arbitrary arguments": a Path may hold any bytes): every creating,
+    // moving and removing call with such a name below an existing directory, below a file and below a missing
+    // parent, from two pre-states; whatever the call answers, the dump must stay well formed
+    {
+        use rivia::prelude::*;
+        use std::os::unix::ffi::OsStrExt;
+        let raw = |b: &[u8]| std::path::PathBuf::from(std::ffi::OsStr::from_bytes(b));
+        let names: Vec<std::path::PathBuf> = vec![raw(b"/a/caf\xe9"), raw(b"/\xff"), raw(b"/a/\xe9/b"), raw(b"/f/\xfe"), raw(b"/zz/\xe9"), raw(b"\xe9"), raw(b"/a/\xc3")];
+        let mut n_calls = 0u64;
+        for pre in 0..2 {
+            for (ni, name) in names.iter().enumerate() {
+                let calls: Vec<(&str, Box<dyn Fn(&Memfs) -> bool>)> = vec![
+                    ("mkfile", Box::new(|fs: &Memfs| fs.mkfile(name).is_ok())),
+                    ("mkdir_p", Box::new(|fs: &Memfs| fs.mkdir_p(name).is_ok())),
+                    ("mkdir_m", Box::new(|fs: &Memfs| fs.mkdir_m(name, 0o700).is_ok())),
+                    ("write_all", Box::new(|fs: &Memfs| fs.write_all(name, b"x").is_ok())),
+                    ("append_all", Box::new(|fs: &Memfs| fs.append_all(name, b"y").is_ok())),
+                    ("write handle", Box::new(|fs: &Memfs| fs.write(name).map(|mut h| std::io::Write::write_all(&mut h, b"z").is_ok()).unwrap_or(false))),
+                    ("symlink (link)", Box::new(|fs: &Memfs| fs.symlink(name, "/a").is_ok())),
+                    ("symlink (target)", Box::new(|fs: &Memfs| fs.symlink("/l", name).is_ok())),
+                    ("move_p (dst)", Box::new(|fs: &Memfs| fs.move_p("/f", name).is_ok())),
+                    ("move_p (src)", Box::new(|fs: &Memfs| fs.move_p(name, "/g").is_ok())),
+                    ("copy (dst)", Box::new(|fs: &Memfs| fs.copy("/a", name).is_ok())),
+                    ("copy (src)", Box::new(|fs: &Memfs| fs.copy(name, "/g").is_ok())),
+                    ("remove", Box::new(|fs: &Memfs| fs.remove(name).is_ok())),
+                    ("remove_all", Box::new(|fs: &Memfs| fs.remove_all(name).is_ok())),
+                    ("set_cwd", Box::new(|fs: &Memfs| fs.set_cwd(name).is_ok())),
+                    ("chmod", Box::new(|fs: &Memfs| fs.chmod(name, 0o600).is_ok())),
+                ];
+                for (cname, call) in calls {
+                    let fs = Memfs::new();
+                    let _ = fs.mkdir_p("/a/b");
+                    let _ = fs.write_all("/f", b"0");
+                    if pre == 1 {
+                        let _ = fs.set_cwd("/a");
+                    }
+                    n_calls += 1;
+                    let ok = std::panic::catch_unwind(std::panic::AssertUnwindSafe(|| call(&fs)));
+                    let broken = std::panic::catch_unwind(std::panic::AssertUnwindSafe(|| invariants::check(&fs.verif_dump())));
+                    let shown = format!("{:?}", name);
+                    match (ok, broken) {
+                        (Err(_), _) => vio(&format!("C03 panic in {} with a non-UTF-8 argument", cname), || format!("{}({}) panicked (cwd {})", cname, shown, if pre == 1 { "/a" } else { "/" }), || J::obj([("part", J::s("non-utf8")), ("call", J::s(cname)), ("name_idx", J::i(ni as i64))])),
+                        (Ok(r), Ok(b)) => {
+                            for (code, detail) in b {
+                                vio(&format!("C03 {} after {} with a non-UTF-8 argument {}", code, cname, if r { "ok" } else { "err" }), || format!("{}({}) (cwd {}) returned {} and left a malformed namespace: {}", cname, shown, if pre == 1 { "/a" } else { "/" }, if r { "Ok" } else { "Err" }, detail), || J::obj([("part", J::s("non-utf8")), ("call", J::s(cname)), ("name_idx", J::i(ni as i64))]));
+                            }
+                        },
+                        (Ok(_), Err(_)) => vio(&format!("C03 state cannot be dumped after {} with a non-UTF-8 argument", cname), || format!("{}({}): the dump hook panicked on the resulting state", cname, shown), || J::obj([("part", J::s("non-utf8")), ("call", J::s(cname)), ("name_idx", J::i(ni as i64))])),
+                    }
+                }
+            }
+        }
+        println!("  non-UTF-8 arguments: {} calls, invariants on every resulting dump", n_calls);
+    }
     // ---- the schedule half: every interleaving of the critical sections of small concurrent programs
     // (C04's explorer and quick families), invariants I1-I8 on the dump at quiescence
     let (sched_programs, schedules, sched_fams) = match crate::props::c04::explore_integrity(ctx) {
@@ -129,6 +183,11 @@ pub fn run(ctx: &Ctx) -> i32 {
 fn replay(ctx: &Ctx, p: &std::path::Path) -> i32 {
     let j = json::parse(&std::fs::read_to_string(p).expect("read replay")).expect("parse replay");
     let case = j.get("case").expect("case");
+    if case.get("part").and_then(|x| x.as_str()) == Some("non-utf8") {
+        println!("replay {}: the non-UTF-8 argument sweep is a fixed list of {} calls; it is re-run by ./check {} (signature names the call)", ctx.prop, 16 * 7 * 2, ctx.prop);
+        println!("VIOLATION property={} replay={}", ctx.prop, p.display());
+        return 1;
+    }
     if case.get("program_idx").is_some() {
         return crate::props::c04::replay_integrity(ctx, p);
     }
